@@ -49,8 +49,21 @@ func (b *RulesBuilder) Apply(rules []*config_parser.RoutingRule) (err error) {
 			return err
 		}
 
+		// A condition whose value list is empty (e.g. geosite:xx@attr selected no entry, or an empty geoip
+		// list) has a fixed truth value: f() never holds, !f() always holds. Lowering it as it is would emit
+		// no match set at all, so the condition would silently vanish from the rule (or, as the last condition,
+		// leave the AND chain without its outbound).
+		andFunctions, neverHolds := foldEmptyConditions(rule.AndFunctions)
+		if neverHolds {
+			b.log.Warnf("Rule never matches (a condition has no values after expansion): %v", rule.String(true, false, false))
+			continue
+		}
+		if len(andFunctions) == 0 && len(rule.AndFunctions) > 0 {
+			return fmt.Errorf("rule '%v' matches everything: all its conditions are negations of lists that are empty after expansion", rule.String(false, false, false))
+		}
+
 		// rule is like: domain(domain:baidu.com) && port(443) -> proxy
-		for iFunc, f := range rule.AndFunctions {
+		for iFunc, f := range andFunctions {
 			// f is like: domain(domain:baidu.com)
 			functionParser, ok := b.parsers[f.Name]
 			if !ok {
@@ -67,7 +80,7 @@ func (b *RulesBuilder) Apply(rules []*config_parser.RoutingRule) (err error) {
 				}
 				if jMatchSet == len(keyOrder)-1 {
 					overrideOutbound.Name = consts.OutboundLogicalAnd.String()
-					if iFunc == len(rule.AndFunctions)-1 {
+					if iFunc == len(andFunctions)-1 {
 						overrideOutbound.Name = outbound.Name
 					}
 				}
@@ -88,6 +101,22 @@ func (b *RulesBuilder) Apply(rules []*config_parser.RoutingRule) (err error) {
 		}
 	}
 	return nil
+}
+
+// foldEmptyConditions removes the conditions that have no values: a negated one always holds and is dropped;
+// a plain one never holds, which makes the whole rule unsatisfiable (neverHolds).
+func foldEmptyConditions(functions []*config_parser.Function) (kept []*config_parser.Function, neverHolds bool) {
+	kept = make([]*config_parser.Function, 0, len(functions))
+	for _, f := range functions {
+		if len(f.Params) != 0 {
+			kept = append(kept, f)
+			continue
+		}
+		if !f.Not {
+			return nil, true
+		}
+	}
+	return kept, false
 }
 
 func groupParamValuesByKey(params []*config_parser.Param) (keyToValues map[string][]string, keyOrder []string) {
